@@ -9,6 +9,8 @@ import (
 	"strings"
 
 	"golang.org/x/tools/go/packages"
+
+	"golang.org/x/tools/go/ssa"
 )
 
 func init() { register("C11", checkC11) }
@@ -78,6 +80,22 @@ func checkC11(w *World, r *Report) {
 
 	r.Rule("R11.7", "the import graph is complete: Process(Sub)moduleIncludes merge the unfiltered import statements of every included submodule into the including module (the only source of the submodule's edges in the import cycle check and module ordering)", 6)
 	r.guard("R11.7", func() { c11ImportEdges(w, r) })
+
+	r.Rule("R11.8", "every declared feature gets its own verdict, whatever the order in which modules and features are visited: in checkFeatures the verdict of isFeatureValid is recorded for each feature of each module on every iteration (no feature is skipped because an earlier chain already visited it)", 1)
+	r.guard("R11.8", func() {
+		f := w.SSAFunc(w.Method("compile", "Compiler", "checkFeatures"))
+		if f == nil {
+			panic(undecided{"Compiler.checkFeatures"})
+		}
+		found, ok, why := everyIterationCalls(f, func(c ssa.CallInstruction) bool {
+			sc := c.Common().StaticCallee()
+			return sc != nil && sc.Name() == "set" && sc.Signature.Recv() != nil && strings.Contains(sc.Signature.Recv().Type().String(), "featuresMap")
+		})
+		if !found {
+			panic(undecided{"checkFeatures: recording of the verdict"})
+		}
+		r.Check(ok, "R11.8", "checkFeatures records every feature", f.Pos(), "filteredFeatures.set(…) on every iteration of the feature loop", "a feature can be skipped ("+why+"): it is then missing from the verified set — treated as disabled — depending on which module the map iteration visits first")
+	})
 
 	r.Rule("R11.6", "no compile error is forgotten: in package compile every error result bound to a variable is examined (the two os.Open calls of the file-system feature scan are reviewed)", 1)
 	r.guard("R11.6", func() {
